@@ -195,6 +195,7 @@ def run(ctx):
     # ---- ECEF -> LLA ------------------------------------------------------------------------
     ctx.guard(_ecef_to_lla, ctx, py)
     ctx.guard(_olson_standin, ctx, py)
+    ctx.guard(_forward_float_standin, ctx, py)
 
     # frame of the modules under contract (no state kept between calls, arguments left alone): same analysis as C19
     from props import C19 as _C19
@@ -343,6 +344,37 @@ def _sym_native(py, p, i):
     s = -1 if i == 0 else 1
     return dict(reproduced=abs(b[i] - s * a[i]) > 1e-9 * (1 + abs(a[i])), inputs=r,
                 north=float(a[i]), south=float(b[i]))
+
+
+def _forward_float_standin(ctx, py):
+    """BOUNDED stand-in for the step from real to machine arithmetic in lla_to_ecef (proved equal to the closed form over the
+    reals): float64 result against a 40-digit evaluation of the closed form, the neighbourhoods of the poles included (where
+    cos(lat) obtained as sqrt(1 - sin^2) would lose all its digits); 4e-8 m (1 + |h|/a), 20 x the error of the pinned tree."""
+    import mpmath as mp
+    T, E = py.transform, py.earth
+    t0 = time.time()
+    rng = np.random.RandomState(ctx.seed + 16)
+    lats = [90.0, -90.0, 0.0] + [s_ * (90 - 10.0 ** -k) for k in range(0, 13) for s_ in (1, -1)] \
+        + list(rng.uniform(-90, 90, 100 if ctx.tier == "quick" else 2000))
+    fails = []
+    worst = 0.0
+    n = 0
+    for la in lats:
+        for al in (-1e4, 0.0, 500.0, 1e5, 4e7):
+            lo = float(rng.choice([-180.0, 180.0, 0.0, rng.uniform(-180, 180)], p=[0.05, 0.05, 0.05, 0.85]))
+            got = np.asarray(T.lla_to_ecef([la, lo, al]), dtype=float)
+            with mp.workdps(40):
+                A_, E2_ = mp.mpf(float(E.A)), mp.mpf(float(E.E2))
+                a_, o_, h_ = mp.radians(mp.mpf(float(la))), mp.radians(mp.mpf(lo)), mp.mpf(al)
+                N_ = A_ / mp.sqrt(1 - E2_ * mp.sin(a_) ** 2)
+                want = [float((N_ + h_) * mp.cos(a_) * mp.cos(o_)), float((N_ + h_) * mp.cos(a_) * mp.sin(o_)), float((N_ * (1 - E2_) + h_) * mp.sin(a_))]
+            n += 1
+            d = float(np.max(np.abs(got - np.array(want)))) / (1 + abs(al) / 6378137.0)
+            worst = max(worst, d)
+            if not d <= 4e-8:
+                fails.append(dict(lla=[float(la), lo, al], real_code=[float(v) for v in got], closed_form_40_digits=want, error_m=d, tolerance_m=4e-8))
+    ctx.standin("C16.lla_to_ecef.float64.rt", "%d points: poles, equator, 90 - 10^-k deg (k = 0..12, both hemispheres), seeded random latitudes x 5 altitudes "
+                "(-10 km .. 40000 km), longitudes incl. +-180: |float64 - closed form| <= 4e-8 m (1 + |h|/a) (worst seen %.2g)" % (n, worst), n, fails[:5], time_s=time.time() - t0)
 
 
 def _olson_standin(ctx, py):
